@@ -26,6 +26,8 @@ ASSUMPTIONS = [
     "inside the sequence (0 <= start <= end <= len) is outside the quantifier — per FEATURE its GetSequence reply (today a slice panic) is "
     "neither judged nor compared with the model (class …/getseq-outside-drift when it differs); its coordinates and columns, and every "
     "other feature of the same record, stay judged and compared",
+    "on a record of the known-finding class (a '#'-leading seqid) on which the property HOLDS of the reply (the finding repaired, e.g. "
+    "by escaping), a difference from the model — which mirrors the loss, also in Build's text — is drift (class …/kf-repaired), not a DIFF",
     "a case outside the quantifier is not judged, EXCEPT that a timeout / crash / panic where the model predicts a normal return is a FAIL",
     "NARROWING: Meta.GffVersion free of blank and newline is a hypothesis of parse_build only; the judge still judges records whose "
     "version holds a blank (the version is not a judged field)",
